@@ -518,6 +518,11 @@ def field_stores(b, adt):
             pr = st["place"]["p"]
             if pr and pr[-1]["k"] == "field" and norm(pr[-1].get("adt") or "") == adt:
                 out.setdefault(pr[-1]["name"], []).append((i, st["rv"]))
+            # a struct literal `Adt { f: x, .. }` stores every field at once
+            rv = st["rv"]
+            if rv["k"] == "aggregate" and rv.get("agg") == "adt" and norm(rv.get("adt") or "") == adt:
+                for f in rv["fields"]:
+                    out.setdefault(f["name"], []).append((i, {"k": "use", "op": f["op"]}))
     return out
 
 
@@ -558,46 +563,72 @@ def extract_rule(P, chk):
                         for cn, lab, ct in q.guard_calls(c, ss[0][0]))
     chk.require(ok and (acc_uncond or acc_gated), R_FRAG, "ExtractRule|account: the rule's account replaces the running one", c.loc(),
                 "account stores: %s" % [mir.prov_strs(c, rv["op"]) if rv["k"] == "use" else rv["k"] for bb, rv in ss], "current.account = self.account")
-    # cleared table
+    # cleared table: over (cleared before, rule pending, rule assigns an account), judged path by path on straight-line
+    # copies of the update, so that it does not matter whether the update is a guarded field store or one expression
     ss = stores.get("cleared", [])
-    ok = len(ss) == 1
-    detail = "%d store(s) to cleared" % len(ss)
-    if ok:
-        sbb, rv = ss[0]
 
-        def sym(r):
-            if is_cur(r, "cleared"):
-                return "old"
-            if is_self(r, "pending"):
-                return "pending"
-            return None
-        bad = []
-        for old in (False, True):
-            for pend in (False, True):
-                try:
-                    v = tables.eval_rvalue(c, rv, {"old": old, "pending": pend}, sym)
-                except tables.Unknown as e:
-                    bad.append("not interpretable: %s" % e)
-                    break
-                if v != (old or not pend):
-                    bad.append("cleared-before=%s, rule pending=%s -> cleared=%s (specified %s)" % (old, pend, v, old or not pend))
-            if bad and bad[-1].startswith("not interp"):
-                break
-        chk.add_paths(4)
-        ok = not bad
-        detail = "; ".join(bad[:2])
-        # gate: only for account-assigning rules
-        gate = False
-        for cn, lab, ct in q.guard_calls(c, sbb):
-            if cn == "std::option::Option::is_some" and lab is True:
-                rs = prov(c, ct["args"][0])
-                if rs and all(is_self(r, "account") for r in rs):
-                    gate = True
-                elif rs and all(is_cur(r, "account") for r in rs) and acc_uncond and c.must_pass_block(ct and sbb, stores["account"][0][0]):
-                    gate = True
-        chk.require(gate, R_CLR, "ExtractRule|cleared changes only for account-assigning rules", c.loc(sbb),
-                    "the cleared update is not behind is_some() of the rule's account", "if self.account.is_some()")
-    chk.require(ok, R_CLR, "ExtractRule|cleared = cleared || !pending", c.loc(), detail, "4 cases (cleared-before x pending), exhaustive")
+    def sym(r):
+        if is_cur(r, "cleared"):
+            return "old"
+        if is_self(r, "pending"):
+            return "pending"
+        return None
+
+    def acc_atom(body, a):
+        """True when the atom tests is_some() of the account the rule assigns"""
+        if a.kind != "call" or short(a.subject[0]) not in ("is_some", "is_none"):
+            return False
+        rs = set()
+        for x in a.subject[1][:1]:
+            rs |= set(x)
+        if rs and all(is_self(r, "account") for r in rs):
+            return True
+        return bool(rs) and all(is_cur(r, "account") for r in rs) and acc_uncond
+    bad_tab, bad_gate = [], []
+    try:
+        paths = mir.enumerate_paths(c, limit=4000)
+    except mir.TooManyPaths:
+        paths = None
+        bad_tab.append("update not analysable: too many paths")
+    n_cases = 0
+    for old in (False, True) if paths is not None else ():
+        for pend in (False, True):
+            for acc in (False, True):
+                env = {"old": old, "pending": pend}
+                want = (old or not pend) if acc else old
+                vals = set()
+                for p in paths:
+                    okp = True
+                    for a in p.atoms:
+                        if a.kind == "bool" or a.kind == "int":
+                            ssym = set(sym(r) for r in a.subject)
+                            if len(ssym) == 1 and None not in ssym:
+                                if env[ssym.pop()] not in a.label:
+                                    okp = False
+                        elif acc_atom(c, a):
+                            v = acc if short(a.subject[0]) == "is_some" else (not acc)
+                            if v not in a.label:
+                                okp = False
+                    if not okp:
+                        continue
+                    pb = mir.path_body(c, p.blocks)
+                    st = field_stores(pb, FRAG).get("cleared", [])
+                    try:
+                        vals.add(tables.eval_rvalue(pb, st[-1][1], env, sym) if st else old)
+                    except tables.Unknown as e:
+                        vals.add("not interpretable: %s" % e)
+                n_cases += 1
+                if vals != {want}:
+                    msg = "cleared-before=%s, rule pending=%s, rule assigns an account=%s -> cleared=%s (specified %s)" % (
+                        old, pend, acc, sorted(map(str, vals)), want)
+                    (bad_tab if acc else bad_gate).append(msg)
+    chk.add_paths(n_cases)
+    ok = bool(ss) and not bad_tab
+    detail = "; ".join(bad_tab[:2]) or "%d store(s) to cleared" % len(ss)
+    sbb = ss[0][0] if ss else None
+    chk.require(bool(ss) and not bad_gate, R_CLR, "ExtractRule|cleared changes only for account-assigning rules", c.loc(sbb) if ss else c.loc(),
+                "; ".join(bad_gate[:2]) or "no store to cleared", "unchanged when the rule assigns no account (4 cases)")
+    chk.require(ok, R_CLR, "ExtractRule|cleared = cleared || !pending", c.loc(), detail, "4 cases (cleared-before x pending) for account-assigning rules, exhaustive")
     # result of the matcher is what gets updated; None stays None
     r = P.body(REXTRACT)
     ms = [(bb, t) for bb, t in r.calls() if OREX in callee_names(t)]
